@@ -1,7 +1,9 @@
 /-
-  Model of internal/include/loader.go (Load, LoadFromContent, loadWithContent / loadParsed,
-  loadSingleInclude, expandGlob's filtering, ClearCache, InvalidateFile) at the level of the
-  include graph.
+  Model of internal/include/loader.go (Load, LoadFromContent, loadWithContent — split into
+  parseFile + loadParsed by fix-include-3 —, loadSingleInclude, expandGlob's filtering,
+  ClearCache, InvalidateFile) at the level of the include graph.  `loadF` is
+  loadWithContent/loadParsed, `single` + `descend` are loadSingleInclude, `items` flattens the
+  two nested loops over `journal.Includes` and over the glob matches.
 
   What is modelled
   * the recursion of `loadWithContent` and `loadSingleInclude` with everything it shares
